@@ -78,6 +78,11 @@ public:
 	
 	ScopedRemover & operator = (ScopedRemover && other) noexcept
 	{
+		if(this == &other) {
+			return *this;
+		}
+		// Detach what this remover is responsible for, otherwise those listeners outlive all removers.
+		reset();
 		dispatcher = std::move(other.dispatcher);
 		itemList = std::move(other.itemList);
 		other.reset();
@@ -219,6 +224,11 @@ public:
 
 	ScopedRemover & operator = (ScopedRemover && other) noexcept
 	{
+		if(this == &other) {
+			return *this;
+		}
+		// Detach what this remover is responsible for, otherwise those callbacks outlive all removers.
+		reset();
 		callbackList = std::move(other.callbackList);
 		itemList = std::move(other.itemList);
 		other.reset();
